@@ -70,7 +70,10 @@ def gen_l3(rng, dv, v6):
         tos, tlen, ident, ttl, csum = dv.val(1), dv.val(2), dv.val(2), dv.val(1), dv.val(2)
         flags, frag = rng.randrange(8), rng.randrange(8192)
         src, dst = bytes(dv.val(1) for _ in range(4)), bytes(dv.val(1) for _ in range(4))
-        b = bytes([0x45, tos]) + struct.pack(">HHHBBH", tlen, ident, (flags << 13) | frag, ttl, proto, csum) + src + dst
+        # one header in five carries IP options: IHL 6..15 words, the transport header follows the options
+        ihl = rng.randrange(6, 16) if rng.random() < 0.2 else 5
+        b = bytes([0x40 | ihl, tos]) + struct.pack(">HHHBBH", tlen, ident, (flags << 13) | frag, ttl, proto, csum) + src + dst
+        b += bytes(rng.randrange(256) for _ in range(4 * (ihl - 5)))
         e3 = {"Version": 4, "TOS": tos, "TotalLen": tlen, "ID": ident, "Flags": flags, "FragOff": frag, "TTL": ttl, "Protocol": proto,
               "Checksum": csum, "Src": go_ip_string(src), "Dst": go_ip_string(dst)}
     else:
@@ -120,7 +123,7 @@ def gen_flow_sample(rng, dv):
             body, tree, hdr = gen_raw_header(rng, dv)
             if "RestHeader" in tree["L4"]:
                 # everything sampled after the 4 fixed ICMP octets
-                l3len = 40 if tree["L3"]["Version"] == 6 else 20
+                l3len = 40 if tree["L3"]["Version"] == 6 else 4 * (hdr[(0 if tree["L2"]["EtherType"] == 0 else (18 if hdr[12:14] == b"\x81\x00" else 14))] & 15)
                 l2len = 0 if tree["L2"]["EtherType"] == 0 else (18 if hdr[12:14] == b"\x81\x00" else 14)
                 tree["L4"]["RestHeader"] = base64.b64encode(hdr[l2len + l3len + 4:]).decode()
             recs.append(struct.pack(">II", 1, len(body)) + body); exp["RawHeader"] = tree
